@@ -3718,7 +3718,9 @@ class Score(object):
 
     def __iter__(self) -> Iterator[Part]:
         self.iter_idx = 0
-        return self
+        # every iteration gets its own cursor, so that nested or interleaved
+        # iterations over the same score do not disturb each other
+        return iter(self.parts)
 
     def __next__(self) -> Part:
         if self.iter_idx == len(self.parts):
